@@ -71,7 +71,25 @@ var fieldSpecs = []fieldSpec{
 	{"fmax", protoMetricsV1.SimpleFieldType_Max, "max"},
 	{"flast", protoMetricsV1.SimpleFieldType_LAST, "last"},
 	{"ffirst", protoMetricsV1.SimpleFieldType_FIRST, "first"},
+	// fields of a histogram (compound field of a row; plans with cfg fx=1): lindb stores min / max / sum / count and
+	// one field per bucket that received observations
+	{"HistogramMin", 0, "min"},
+	{"HistogramMax", 0, "max"},
+	{"HistogramSum", 0, "sum"},
+	{"HistogramCount", 0, "sum"},
+	{"__bucket_1", 0, "sum"},
+	{"__bucket_5", 0, "sum"},
+	{"__bucket_10", 0, "sum"},
+	{"__bucket_+Inf", 0, "sum"},
 }
+
+const (
+	nSimple     = 5 // simple fields written through SimpleFields
+	fHistMin    = 5
+	fHistBucket = 9 // first bucket field
+)
+
+var histBounds = []float64{1, 5, 10, math.Inf(1)}
 
 type point struct {
 	series int // index into the run's series list
@@ -127,6 +145,7 @@ func (H) Gen(prop string, rng *rand.Rand, tier string) *core.Plan {
 	if prop == "C11" {
 		p.Cfg["multi"] = rng.Intn(2) // statements may select two columns
 		p.Cfg["families"] = 1 + rng.Intn(2) // points of one or two hours: one or two data families per shard
+		p.Cfg["fx"] = rng.Intn(2)           // histograms in the rows; rate, arithmetic, quantile, functions on last / first fields in the statements
 	}
 	return p
 }
@@ -230,7 +249,7 @@ func (r *run) write(op core.Op) {
 	byShard := map[int][]rows.Point{}
 	// field modes (new plans): a write may carry only the first one or two fields, so files whose metric block
 	// has a single field (a layout of its own) and files with other field sets meet in queries and compactions
-	limit, only := len(fieldSpecs), -1
+	limit, only := nSimple, -1
 	if r.forceOnly > 0 {
 		only = r.forceOnly - 1
 	} else if r.c.Plan.C("fieldmodes", 0) == 1 {
@@ -240,7 +259,7 @@ func (r *run) write(op core.Op) {
 			r.c.Sim.Probe(fmt.Sprintf("write-with-%d-fields", limit))
 		} else if m == 2 && r.c.Plan.C("multi", 0) == 1 {
 			// one field only, and not the first: a flushed block whose single field is a later one of the metric
-			only = 1 + mrng.Intn(len(fieldSpecs)-1)
+			only = 1 + mrng.Intn(nSimple-1)
 			r.c.Sim.Probe("write-with-one-later-field")
 		}
 	}
@@ -252,7 +271,7 @@ func (r *run) write(op core.Op) {
 			ts += int64(rng.Intn(fams)) * 3600000
 		}
 		var fs []rows.Field
-		for fi, spec := range fieldSpecs {
+		for fi, spec := range fieldSpecs[:nSimple] {
 			if fi >= limit {
 				break
 			}
@@ -267,7 +286,23 @@ func (r *run) write(op core.Op) {
 			fs = append(fs, rows.Field{Name: spec.name, Type: spec.typ, Value: v})
 			r.points = append(r.points, point{series: si, field: fi, ts: ts, value: v, order: len(r.points), epoch: r.epoch})
 		}
-		byShard[r.shardOf[si]] = append(byShard[r.shardOf[si]], rows.Point{Name: "m", Tags: r.series[si].tags(), Timestamp: ts, Fields: fs})
+		var hist *rows.Hist
+		if r.c.Plan.C("fx", 0) == 1 && only < 0 && rng.Intn(4) == 0 {
+			// the row carries a histogram as well
+			hist = &rows.Hist{Bounds: histBounds, Min: float64(rng.Intn(5)), Max: float64(5 + rng.Intn(30)), Sum: float64(rng.Intn(100)), Count: float64(1 + rng.Intn(20))}
+			for bi := range histBounds {
+				v := float64(rng.Intn(4)) // 0: the bucket gets no value in this row
+				hist.Values = append(hist.Values, v)
+				if v > 0 {
+					r.points = append(r.points, point{series: si, field: fHistBucket + bi, ts: ts, value: v, order: len(r.points), epoch: r.epoch})
+				}
+			}
+			for k, v := range []float64{hist.Min, hist.Max, hist.Sum, hist.Count} {
+				r.points = append(r.points, point{series: si, field: fHistMin + k, ts: ts, value: v, order: len(r.points), epoch: r.epoch})
+			}
+			r.c.Sim.Probe("write-histogram")
+		}
+		byShard[r.shardOf[si]] = append(byShard[r.shardOf[si]], rows.Point{Name: "m", Tags: r.series[si].tags(), Timestamp: ts, Fields: fs, Hist: hist})
 	}
 	if r.route {
 		// the batch goes the broker's way: lindb's routing hash picks the shard of every row and its batch
@@ -560,6 +595,10 @@ type queryDef struct {
 	start    int64
 	end      int64
 	fn       string // "", or a function on the sum field: sum, min, max (down-sampling and merge of series by that function)
+	// plans with cfg fx=1: "rate" (rate of the sum field), "mul2" / "add10" (arithmetic with a literal), "quantile"
+	// (over the histogram buckets); fn may also be sum / min / max on the last and first fields
+	kind string
+	qv   float64 // quantile
 	// a second select item (plans with cfg multi=1): another field, or another function of the sum field
 	two    bool
 	field2 int
@@ -569,12 +608,15 @@ type queryDef struct {
 // second returns the query seen from its second select item.
 func (q queryDef) second() queryDef {
 	q2 := q
-	q2.field, q2.fn, q2.two = q.field2, q.fn2, false
+	q2.field, q2.fn, q2.two, q2.kind = q.field2, q.fn2, false, ""
 	return q2
 }
 
 // column is the name of the selected column in the statement and in the result.
 func (q queryDef) column() string {
+	if q.kind != "" {
+		return "c1" // the new kinds are selected under an alias
+	}
 	if q.fn != "" {
 		return q.fn + "(" + fieldSpecs[q.field].name + ")"
 	}
@@ -584,6 +626,16 @@ func (q queryDef) column() string {
 func (q queryDef) sql() string {
 	var sb strings.Builder
 	cols := q.column()
+	switch q.kind {
+	case "rate":
+		cols = "rate(" + fieldSpecs[q.field].name + ") as c1"
+	case "mul2":
+		cols = fieldSpecs[q.field].name + "*2 as c1"
+	case "add10":
+		cols = fieldSpecs[q.field].name + "+10 as c1"
+	case "quantile":
+		cols = fmt.Sprintf("quantile(%v) as c1", q.qv)
+	}
 	if q.two {
 		cols += "," + q.second().column()
 	}
@@ -622,14 +674,35 @@ func genQuery(rng *rand.Rand, prop string, fams int, multi ...bool) queryDef {
 				}
 			}
 		} else {
-			q.field2 = (q.field + 1 + rng.Intn(len(fieldSpecs)-1)) % len(fieldSpecs)
+			q.field2 = (q.field + 1 + rng.Intn(nSimple-1)) % nSimple
+		}
+	}
+	if len(multi) > 1 && multi[1] && prop != "C10" && rng.Intn(3) == 0 {
+		// plans with cfg fx=1 (drawn last: everything else of the statement is as without it)
+		switch k := rng.Intn(8); {
+		case k == 0:
+			q.field, q.fn, q.kind = 0, "", "rate"
+		case k == 1:
+			q.fn, q.kind = "", []string{"mul2", "add10"}[rng.Intn(2)]
+		case k == 2 || k == 3:
+			q.fn, q.kind, q.qv = "", "quantile", []float64{0.5, 0.9, 0.99, 0.75}[rng.Intn(4)]
+			q.field = fHistBucket
+		case k == 4 || k == 5:
+			q.field, q.fn = fHistMin+rng.Intn(4), "" // HistogramMin / Max / Sum / Count as plain fields
+		default:
+			// a function on the last / first field: the storage slots hold the last / first written value, the
+			// function combines the slots of a bucket and the series of a group
+			q.field, q.fn = 3+rng.Intn(2), []string{"sum", "min", "max"}[rng.Intn(3)]
+		}
+		if q.two && q.field2 == q.field {
+			q.two = false
 		}
 	}
 	return q
 }
 
 func genQuery1(rng *rand.Rand, prop string, fams int) queryDef {
-	q := queryDef{field: rng.Intn(len(fieldSpecs))}
+	q := queryDef{field: rng.Intn(nSimple)}
 	if prop == "C10" {
 		q.field = 0
 		q.cond = genCond(rng, 1+rng.Intn(3))
@@ -678,7 +751,7 @@ func (r *run) expected(q queryDef, upto int) map[string]*expGroup {
 	start := q.start / 10000 * 10000
 	end := q.end / 10000 * 10000
 	for _, p := range r.points[:upto] {
-		if p.field != q.field {
+		if p.field != q.field && !(q.kind == "quantile" && p.field >= fHistBucket) {
 			continue
 		}
 		s := r.series[p.series]
@@ -739,7 +812,7 @@ func aggregate(agg string, ps []point) (float64, []float64) {
 func (r *run) query(op core.Op, duringFlush bool) {
 	c := r.c
 	rng := rand.New(rand.NewSource(atoi(op.S)))
-	q := genQuery(rng, c.Plan.Prop, c.Plan.C("families", 1), c.Plan.C("multi", 0) == 1)
+	q := genQuery(rng, c.Plan.Prop, c.Plan.C("families", 1), c.Plan.C("multi", 0) == 1, c.Plan.C("fx", 0) == 1)
 	sqlText := q.sql()
 	before := len(r.points) // every write completed before the query started
 	flushDone := true
@@ -961,9 +1034,19 @@ func (r *run) compare(sqlText string, q queryDef, exp map[string]*expGroup, rs *
 		}
 		sort.Slice(slots, func(i, j int) bool { return slots[i] < slots[j] })
 		for _, s := range slots {
-			want, cands := aggregate(fieldSpecs[q.field].agg, e.values[s])
+			agg := fieldSpecs[q.field].agg
+			want, cands := aggregate(agg, e.values[s])
 			splitSlot := false
-			if q.fn == "min" || q.fn == "max" {
+			var anyOf []float64 // quantile: the acceptable answers
+			switch {
+			case q.kind == "quantile":
+				anyOf, cands = quantileCands(q.qv, e.values[s]), nil
+				want = anyOf[0]
+			case q.fn != "" && (agg == "last" || agg == "first"):
+				// a function on a last / first field: the storage slot of a series holds its last / first written value
+				want, splitSlot = slotFunctionTyped(q.fn, agg, e.values[s])
+				cands = nil
+			case q.fn == "min" || q.fn == "max":
 				// min/max of a sum field: the storage slot of a series holds the sum of its points (field type),
 				// the function picks among the slots of the bucket and among the series of the group
 				want, splitSlot = slotFunction(q.fn, e.values[s])
@@ -972,6 +1055,24 @@ func (r *run) compare(sqlText string, q queryDef, exp map[string]*expGroup, rs *
 			if !ok {
 				c.Violate(prop+"/value-missing", "%s: group %v slot %s has no value, expected %v %v", sqlText, e.tags, fmtTime(s), want, cands)
 				return
+			}
+			switch q.kind {
+			case "rate": // per second over the query's interval
+				ivs := int64(10)
+				if q.interval > 10000 {
+					ivs = q.interval / 1000
+				}
+				want /= float64(ivs)
+			case "mul2": // the answer is judged through the inverse of the arithmetic (exact for these values)
+				gv /= 2
+			case "add10":
+				gv -= 10
+			case "quantile":
+				for _, a := range anyOf {
+					if a == gv || math.Abs(a-gv) <= 1e-9*math.Max(1, math.Abs(a)) {
+						want = gv
+					}
+				}
 			}
 			if cands == nil {
 				if gv != want {
@@ -1017,6 +1118,9 @@ func (r *run) compare(sqlText string, q queryDef, exp map[string]*expGroup, rs *
 		}
 		for s, v := range vals {
 			if _, ok := e.values[s]; !ok {
+				if q.kind == "quantile" && v == 0 {
+					continue // lindb answers 0 for a slot without observations
+				}
 				c.Violate(prop+"/value-appeared", "%s: group %v has value %v at %s where nothing was written", sqlText, e.tags, v, fmtTime(s))
 				return
 			}
@@ -1034,7 +1138,15 @@ func (r *run) compare(sqlText string, q queryDef, exp map[string]*expGroup, rs *
 		// a group without a value of the selected field is an empty answer for that group, not a wrong one
 		// (series are selected by tags and time range before the field is looked at), as long as some series
 		// that satisfies the condition carries these group tags
-		if prop != "C10" && len(got[k].Fields[fname]) == 0 && r.someSeriesHasGroup(q, got[k].Tags) {
+		empty := len(got[k].Fields[fname]) == 0
+		if q.kind == "quantile" {
+			// lindb answers 0 for every slot without observations
+			empty = true
+			for _, v := range got[k].Fields[fname] {
+				empty = empty && v == 0
+			}
+		}
+		if prop != "C10" && empty && r.someSeriesHasGroup(q, got[k].Tags) {
 			c.Sim.Probe("group-without-values")
 			continue
 		}
@@ -1042,6 +1154,16 @@ func (r *run) compare(sqlText string, q queryDef, exp map[string]*expGroup, rs *
 		return
 	}
 	c.Sim.Probe(fmt.Sprintf("groups-%d", min(len(exp), 5)))
+	if len(exp) > 0 {
+		switch {
+		case q.kind != "":
+			c.Sim.Probe("compared-" + q.kind)
+		case q.field >= nSimple:
+			c.Sim.Probe("compared-histogram-field")
+		case q.fn != "" && q.field >= 3:
+			c.Sim.Probe("compared-function-on-last-first")
+		}
+	}
 }
 
 func (r *run) someSeriesHasGroup(q queryDef, tags map[string]string) bool {
@@ -1160,4 +1282,113 @@ func slotFunction(fn string, ps []point) (float64, bool) {
 		}
 	}
 	return out, split
+}
+
+// slotFunctionTyped: sum, min or max over the per (series, storage slot) values of a last / first field, a slot
+// holding its last / first written point; split = some slot of a series received more than one point.
+func slotFunctionTyped(fn, agg string, ps []point) (float64, bool) {
+	type key struct {
+		series int
+		slot   int64
+	}
+	vals := map[key]point{}
+	split := false
+	for _, p := range ps {
+		k := key{p.series, p.ts / 10000}
+		old, ok := vals[k]
+		if ok {
+			split = true
+		}
+		if !ok || (agg == "last" && p.order > old.order) || (agg == "first" && p.order < old.order) {
+			vals[k] = p
+		}
+	}
+	first := true
+	var out float64
+	for _, p := range vals {
+		v := p.value
+		switch {
+		case first:
+			out, first = v, false
+		case fn == "sum":
+			out += v
+		case fn == "min" && v < out, fn == "max" && v > out:
+			out = v
+		}
+	}
+	return out, split
+}
+
+// quantileBuckets: the quantile of a histogram given as (upper bound, observations) pairs in ascending order of the
+// bounds - the linear interpolation inside the bucket that holds the rank, as Prometheus' histogram_quantile
+// (which lindb's documentation refers to); the highest bucket answers with the bound below it.
+func quantileBuckets(qv float64, bounds, counts []float64) float64 {
+	total := 0.0
+	for _, c := range counts {
+		total += c
+	}
+	if total == 0 {
+		return 0
+	}
+	if len(bounds) == 1 {
+		return bounds[0]
+	}
+	rank := qv * total
+	cum, b := 0.0, len(bounds)-1
+	for i := 0; i < len(bounds)-1; i++ {
+		cum += counts[i]
+		if cum >= rank {
+			b = i
+			break
+		}
+	}
+	if b == len(bounds)-1 {
+		return bounds[len(bounds)-2]
+	}
+	if b == 0 && bounds[0] <= 0 {
+		return bounds[0]
+	}
+	start, below := 0.0, cum-counts[b]
+	if b > 0 {
+		start = bounds[b-1]
+	}
+	return start + (bounds[b]-start)*((rank-below)/counts[b])
+}
+
+// quantileCands: the acceptable answers for one bucket of a group. lindb stores a histogram bucket only when it
+// received observations, so a bucket without any may or may not take part in the interpolation (it does when the
+// group has the bucket's field somewhere in the range): the quantile over every such bucket list is accepted.
+// The first entry is the quantile over all buckets.
+func quantileCands(qv float64, ps []point) []float64 {
+	counts := make([]float64, len(histBounds))
+	for _, p := range ps {
+		if p.field >= fHistBucket {
+			counts[p.field-fHistBucket] += p.value
+		}
+	}
+	var zero []int
+	for i, c := range counts {
+		if c == 0 {
+			zero = append(zero, i)
+		}
+	}
+	var out []float64
+	for mask := 0; mask < 1<<len(zero); mask++ {
+		var bs, cs []float64
+		for i := range counts {
+			drop := false
+			for zi, z := range zero {
+				if z == i && mask&(1<<zi) != 0 {
+					drop = true
+				}
+			}
+			if !drop {
+				bs, cs = append(bs, histBounds[i]), append(cs, counts[i])
+			}
+		}
+		if len(bs) > 0 {
+			out = append(out, quantileBuckets(qv, bs, cs))
+		}
+	}
+	return out
 }
